@@ -125,8 +125,11 @@ class PerishableInventory(Entity):
         """Create the initial spoilage check event."""
         from happysimulator.core.temporal import Instant
 
+        # The first check is one interval from *now*: measured from the Epoch it would lie in
+        # the past when the simulation starts later than t=0 or the cycle is started mid-run.
+        base = self._clock.now if self._clock is not None else Instant.Epoch
         return Event(
-            time=Instant.from_seconds(self.spoilage_check_interval_s),
+            time=base + self.spoilage_check_interval_s,
             event_type=_SPOILAGE_CHECK,
             target=self,
             daemon=True,
@@ -182,10 +185,9 @@ class PerishableInventory(Entity):
         results.extend(self._check_reorder())
 
         # Schedule next spoilage check
-        now_s = now.to_seconds()
         results.append(
             Event(
-                time=Instant.from_seconds(now_s + self.spoilage_check_interval_s),
+                time=now + self.spoilage_check_interval_s,
                 event_type=_SPOILAGE_CHECK,
                 target=self,
                 daemon=True,
@@ -264,7 +266,9 @@ class PerishableInventory(Entity):
             )
             return [
                 Event(
-                    time=Instant.from_seconds(now_s + self.lead_time),
+                    # Instant + seconds is integer-nanosecond arithmetic; the round trip through
+                    # float seconds could land 1 ns before ``now`` (lead_time 0 -> event dropped).
+                    time=self.now + self.lead_time,
                     event_type=_REPLENISH,
                     target=self,
                     context={"quantity": self.order_quantity},
